@@ -3,6 +3,8 @@ package props
 import (
 	"fmt"
 	"go/types"
+	"regexp"
+	"strconv"
 	"strings"
 
 	"gmslverif/fw"
@@ -319,7 +321,12 @@ func checkBuildOrder(c *fw.Ctx) {
 		c.CheckGate(rule, fn, "(*EventBuilder).Build", fw.GuardCallErrNil(st.name, st.match), succ)
 		if i > 0 {
 			nl, bad := fw.MustPrecede(fn, fw.IsCallTo(stages[i-1].match), fw.IsCallTo(st.match))
-			c.Check(nl >= 1 && len(bad) == 0, rule, "Build: "+stages[i-1].name+" precedes "+st.name, c.P.Pos(fn.Pos()), "", fmt.Sprintf("%s can run before %s (sites %d, unordered %d)", st.name, stages[i-1].name, nl, len(bad)))
+			// a stage that is not called statically in Build (a table of steps, a method value) cannot be ordered here
+			if nl == 0 || len(fw.CallsTo(fn, false, stages[i-1].match)) == 0 {
+				c.Undecided(rule, "Build: "+stages[i-1].name+" precedes "+st.name, fmt.Sprintf("no static call of %s / %s in Build itself", stages[i-1].name, st.name))
+				continue
+			}
+			c.Check(len(bad) == 0, rule, "Build: "+stages[i-1].name+" precedes "+st.name, c.P.Pos(fn.Pos()), "", fmt.Sprintf("%s can run before %s (sites %d, unordered %d)", st.name, stages[i-1].name, nl, len(bad)))
 		}
 	}
 	// data flows stage to stage
@@ -336,8 +343,7 @@ func checkBuildOrder(c *fw.Ctx) {
 			if src == nil {
 				continue
 			}
-			ok := fw.DerivesFrom(src, fw.FlowSpec{IsSource: fw.IsResultOf(stages[i-1].match, 0), Through: fw.ThroughNames(map[string][]int{"github.com/tidwall/sjson.DeleteBytes": {0}}), All: true})
-			c.Check(ok, rule, "Build: "+stages[i].name+" consumes the output of "+stages[i-1].name, c.P.Pos(call.Pos()), "", "its input is "+fw.Sig(src))
+			c.CheckDerives(src, nil, fw.FlowSpec{IsSource: fw.IsResultOf(stages[i-1].match, 0), Through: fw.ThroughNames(map[string][]int{"github.com/tidwall/sjson.DeleteBytes": {0}}), All: true}, rule, "Build: "+stages[i].name+" consumes the output of "+stages[i-1].name, c.P.Pos(call.Pos()), "", "its input is "+fw.Sig(src))
 		}
 	}
 	// trusted parse with redacted=false
@@ -376,19 +382,51 @@ func checkHeadered(c *fw.Ctx) {
 	if fn := mustFunc(c, rule, "NewEventFromHeaderedJSON"); fn != nil {
 		del, nonConst := constStringArgs(fn, fw.NameIs("github.com/tidwall/sjson.DeleteBytes"), 1)
 		c.Check(nonConst == 0 && sameSet(del, keys), rule, "NewEventFromHeaderedJSON strips exactly {_event_id, _room_version}", c.P.Pos(fn.Pos()), "", "strips "+strings.Join(sortedSet(del), ","))
-		ok := false
-		for _, call := range fw.CallsTo(fn, false, func(n string) bool { return strings.HasSuffix(n, ".NewEventFromTrustedJSONWithEventID") }) {
+		construct := "NewEventFromHeaderedJSON passes the embedded id, the stripped body and the redacted flag on"
+		calls := fw.CallsTo(fn, false, func(n string) bool { return strings.HasSuffix(n, ".NewEventFromTrustedJSONWithEventID") })
+		if len(calls) == 0 {
+			c.Undecided(rule, construct, "no call of NewEventFromTrustedJSONWithEventID in NewEventFromHeaderedJSON itself")
+		}
+		for _, call := range calls {
 			args := call.Common().Args
-			id := fw.Sig(args[len(args)-3])
-			body := args[len(args)-2]
+			id, body, red := args[len(args)-3], args[len(args)-2], args[len(args)-1]
+			// which header key the id is read from: gjson.GetBytes(_, key) or gjson.GetManyBytes(_, keys...)[i]
+			idKey, idKnown := "", false
+			ids := fw.Sig(id)
+			switch {
+			case containsAll(ids, "gjson.GetBytes(param:headeredEventJSON,"):
+				for _, k := range []string{"_event_id", "_room_version"} {
+					if strings.Contains(ids, `gjson.GetBytes(param:headeredEventJSON,"`+k+`")`) {
+						idKey, idKnown = k, true
+					}
+				}
+			case strings.Contains(ids, "gjson.GetManyBytes(param:headeredEventJSON"):
+				for _, gm := range fw.CallsTo(fn, false, fw.NameIs("github.com/tidwall/gjson.GetManyBytes")) {
+					ks, okK := fw.ConstStringsIn(gm.Common().Args[1], nil)
+					if m := regexp.MustCompile(`\)\[(\d+)\]`).FindStringSubmatch(ids); okK && m != nil {
+						if n, err := strconv.Atoi(m[1]); err == nil && n < len(ks) {
+							idKey, idKnown = ks[n], true
+						}
+					}
+				}
+			}
 			// (a loop over the keys to strip makes the body a phi of the input and the stripped bytes:
 			// one derivation suffices, the set of stripped keys is checked above)
 			okBody := fw.DerivesFrom(body, fw.FlowSpec{IsSource: fw.IsResultOf(fw.NameIs("github.com/tidwall/sjson.DeleteBytes"), 0)})
-			if containsAll(id, "gjson.GetBytes(param:headeredEventJSON", `"_event_id"`) && okBody && fw.Sig(args[len(args)-1]) == "param:redacted" {
-				ok = true
+			_, redConst := red.(*ssa.Const)
+			switch {
+			case idKnown && idKey != "_event_id":
+				c.Fail(rule, construct, c.P.Pos(call.Pos()), "the event id handed to the trusted constructor is read from "+idKey)
+			case redConst:
+				c.Fail(rule, construct, c.P.Pos(call.Pos()), "the redacted flag handed on is a constant, not the caller's")
+			case fw.Sig(body) == "param:headeredEventJSON":
+				c.Fail(rule, construct, c.P.Pos(call.Pos()), "the body handed on still carries the header keys")
+			case idKnown && okBody && fw.Sig(red) == "param:redacted":
+				c.Ok(rule, construct, c.P.Pos(call.Pos()), "")
+			default:
+				c.Undecided(rule, construct, "the arguments ("+ids+", "+fw.Sig(body)+", "+fw.Sig(red)+") were not all recognised")
 			}
 		}
-		c.Check(ok, rule, "NewEventFromHeaderedJSON passes the embedded id, the stripped body and the redacted flag on", c.P.Pos(fn.Pos()), "", "the trusted constructor is not called with (_event_id, stripped JSON, redacted)")
 	}
 	if fn := mustFunc(c, rule, "(*eventV1).ToHeaderedJSON"); fn != nil {
 		set, nonConst := constStringArgs(fn, func(n string) bool { return strings.HasPrefix(n, "github.com/tidwall/sjson.Set") }, 1)
@@ -531,7 +569,7 @@ func checkV12Auth(c *fw.Ctx) {
 	}
 	if fn := mustFunc(c, rule, "(*eventV3).RoomID"); fn != nil {
 		calls := fw.CallsTo(fn, false, fw.NameIs("gmsl/spec.NewRoomID"))
-		c.Check(len(calls) == 1, rule, "eventV3.RoomID parses one id string", c.P.Pos(fn.Pos()), "", fmt.Sprintf("%d calls of spec.NewRoomID", len(calls)))
+		c.Expect(len(calls) == 1, rule, "eventV3.RoomID parses one id string", c.P.Pos(fn.Pos()), "", fmt.Sprintf("%d calls of spec.NewRoomID in eventV3.RoomID itself", len(calls)))
 		for _, call := range calls {
 			rows, err := fw.ValueRows(fn, call.Common().Args[0], call.Block())
 			if err != nil {
@@ -578,7 +616,16 @@ func checkV12Auth(c *fw.Ctx) {
 					}
 					if got := fw.Sig(r.Val); got != want {
 						bad++
-						c.Fail(rule, "a v12 create event's room id is \"!\" + event_id[1:], any other event's is its room_id field", c.P.Pos(call.Pos()), fmt.Sprintf("for [%s] the id string is %s, expected %s", a.String(), got, want))
+						construct := "a v12 create event's room id is \"!\" + event_id[1:], any other event's is its room_id field"
+						isField := strings.HasSuffix(got, ".eventFields.RoomID")
+						fromID := strings.Contains(got, ".EventID(")
+						create := a["createType"] == "true" && a["emptyStateKey"] == "true"
+						// positive evidence: the wrong one of the two sources is used
+						if (create && isField) || (!create && fromID && !isField) {
+							c.Fail(rule, construct, c.P.Pos(call.Pos()), fmt.Sprintf("for [%s] the id string is %s, expected %s", a.String(), got, want))
+						} else {
+							c.Undecided(rule, construct, fmt.Sprintf("for [%s] the id string is %s, an expression the rule does not know (expected %s)", a.String(), got, want))
+						}
 					}
 				}
 			})
